@@ -80,6 +80,108 @@ def rule_o6(ctx) -> None:
     c06.rule_b4(ctx, scope, "C17-O6", class_level=False)
 
 
+def rule_o8(ctx) -> None:
+    """A hand-made memo decorator on the normalisation path must key on every argument it forwards: a table keyed by the
+    SMILES alone returns, for the default call, what an earlier call with another option stored."""
+    ctx.rule("C17-O8", "a memo decorator on the normalisation path keys on every argument of the decorated function", 0)
+    prog = ctx.prog
+    roots = [NORM, WC, "synrbl.SynUtils.chem_utils._get_diff_mol"]
+    scope = {q for q in ctx.res.reachable(roots, ctx.graph) if q.startswith("synrbl.SynUtils.")}
+    n = 0
+    for q in sorted(scope):
+        g = prog.functions.get(q)
+        if g is None:
+            continue
+        for d in getattr(g.node, "decorator_list", []):
+            dn = d.func if isinstance(d, ast.Call) else d
+            D = prog.functions.get(g.module.name + "." + unparse(dn)) if isinstance(dn, ast.Name) else None
+            if D is None:
+                continue
+            wrappers = [x for x in ast.walk(D.node) if isinstance(x, ast.FunctionDef) and x is not D.node]
+            for W in wrappers:
+                closure_names = {t.id for a in own_nodes(D.node) if isinstance(a, (ast.Assign, ast.AnnAssign)) for t in (a.targets if isinstance(a, ast.Assign) else [a.target]) if isinstance(t, ast.Name)}
+                keys = [t.slice for a in ast.walk(W) if isinstance(a, ast.Assign) for t in a.targets if isinstance(t, ast.Subscript) and isinstance(t.value, ast.Name) and t.value.id in closure_names]
+                if not keys:
+                    continue
+                n += 1
+                key_names = {x.id for k in keys for x in ast.walk(k) if isinstance(x, ast.Name)}
+                wparams = [a.arg for a in W.args.posonlyargs + W.args.args + W.args.kwonlyargs] + ([W.args.vararg.arg] if W.args.vararg else []) + ([W.args.kwarg.arg] if W.args.kwarg else [])
+                forwarded = set()
+                for c in ast.walk(W):
+                    if isinstance(c, ast.Call) and isinstance(c.func, ast.Name) and c.func.id in D.params:
+                        forwarded |= {x.id for a in list(c.args) + [k.value for k in c.keywords] for x in ast.walk(a) if isinstance(x, ast.Name)}
+                missing = [p_ for p_ in wparams if p_ in forwarded and p_ not in key_names]
+                gparams = [p_ for p_ in g.params + g.kwonly]
+                ok = not missing or len(gparams) <= len([p_ for p_ in wparams if p_ in key_names])
+                ctx.instance("C17-O8", "%s memoised by %s: key over %s, forwards %s; the function takes %s" % (g.name, D.name, sorted(key_names), sorted(forwarded), gparams), g.loc(), ok=ok)
+                if not ok:
+                    ctx.finding("C17-O8", "chem_utils.%s:memo-key-incomplete" % g.name, g.loc(), "%s is memoised by %s under a key made of %s only, but takes %s: a result stored for one value of the other argument(s) is returned for every later call with the same SMILES" % (g.name, D.name, sorted(key_names), gparams))
+    if n == 0:
+        ctx.note("C17-O8: no hand-made memo decorator on the normalisation path on this tree")
+
+
+def rule_o9(ctx) -> None:
+    """The benchmark compares the expected and the actual reaction *of one row*.  Both arguments of wc_similarity are
+    normal forms of fields of the current row; if they are drawn from pre-computed lists, those lists keep one entry per
+    row of the frame that is iterated (no dropna / unique / filter), otherwise a gap shifts every later pair."""
+    ctx.rule("C17-O9", "the benchmark compares the two normal forms of the same row", 1)
+    prog = ctx.prog
+    bf = prog.func("synrbl.SynCmd.cmd_benchmark.run")
+    wcs = [c for c in calls(bf) if (ctx.res.resolve_callee(c, bf) or ("", ""))[1] == WC]
+    ctx.require(wcs, "the benchmark no longer calls wc_similarity")
+    FILTERS = ("dropna", "unique", "drop_duplicates", "query", "nunique", "filter")
+
+    def norm_like(q, depth=0) -> bool:
+        """normalize_smiles itself, or a wrapper (memo, logging) whose every return is normalize_smiles(<its argument>)"""
+        if q == NORM:
+            return True
+        g = prog.functions.get(q)
+        if g is None or depth > 2:
+            return False
+        rets = [r for r in own_nodes(g.node) if isinstance(r, ast.Return) and r.value is not None]
+        return bool(rets) and all(isinstance(r.value, ast.Call) and r.value.args and isinstance(r.value.args[0], ast.Name) and r.value.args[0].id in g.params and norm_like((ctx.res.resolve_callee(r.value, g) or ("", ""))[1], depth + 1) for r in rets)
+
+    def origin(e, depth=0):
+        """('row', <row variable>) | ('list', <why it is / is not aligned>, aligned?)"""
+        if depth > 5:
+            return ("unknown", unparse(e)[:40], False)
+        if isinstance(e, ast.Call) and e.args:
+            tgt = ctx.res.resolve_callee(e, bf)
+            if tgt and tgt[0] == "func" and norm_like(tgt[1]):
+                return origin(e.args[0], depth + 1)
+        if isinstance(e, ast.Subscript) and isinstance(e.value, ast.Name):
+            lb = [l for l in own_nodes(bf.node) if isinstance(l, ast.For) and any(isinstance(x, ast.Name) and x.id == e.value.id for x in ast.walk(l.target))]
+            if lb:
+                return ("row", e.value.id, True)
+        if isinstance(e, ast.Name):
+            # bound by the loop header from a pre-computed list?
+            for l in [x for x in own_nodes(bf.node) if isinstance(x, ast.For)]:
+                if isinstance(l.iter, ast.Call) and getattr(l.iter.func, "id", "") == "zip" and isinstance(l.target, ast.Tuple):
+                    for t_, a_ in zip(l.target.elts, l.iter.args):
+                        if isinstance(t_, ast.Name) and t_.id == e.id:
+                            txt = unparse(a_)
+                            if isinstance(a_, ast.Name):
+                                for _s, v, _i in assignments_to(bf, a_.id):
+                                    txt += " = " + unparse(v)
+                                    if isinstance(v, ast.Call):
+                                        tg = ctx.res.resolve_callee(v, bf)
+                                        if tg and tg[0] == "func" and tg[1] in prog.functions:
+                                            txt += " :: " + unparse(prog.functions[tg[1]].node)
+                            bad = [w for w in FILTERS if "." + w + "(" in txt] + (["if"] if " if " in txt and " for " in txt else [])
+                            return ("list", "%s (%s)" % (unparse(a_)[:30], "filtered by " + "/".join(bad) if bad else "one entry per row"), not bad)
+            defs = assignments_to(bf, e.id)
+            if len(defs) == 1 and defs[0][2] is None:
+                return origin(defs[0][1], depth + 1)
+        return ("unknown", unparse(e)[:40], False)
+
+    for c in wcs:
+        o1, o2 = origin(c.args[0]), origin(c.args[1]) if len(c.args) > 1 else ("unknown", "", False)
+        ok = o1[2] and o2[2] and (o1[0] != "row" or o2[0] != "row" or o1[1] == o2[1])
+        ctx.instance("C17-O9", "wc_similarity(%s, %s): %s / %s" % (unparse(c.args[0])[:20], unparse(c.args[1])[:20] if len(c.args) > 1 else "", o1[:2], o2[:2]), bf.loc(c), ok=ok)
+        if not ok:
+            ctx.finding("C17-O9", "SynCmd.cmd_benchmark.run:pairing", bf.loc(c), "the two reactions compared by the benchmark are not the normal forms of the same row (%s; %s): a row is then compared with the expected reaction of another row" % (o1[:2], o2[:2]))
+
+
 def check(ctx) -> None:
     prog = ctx.prog
     f = prog.func(NORM)
@@ -88,6 +190,8 @@ def check(ctx) -> None:
     CANON_Q = "synrbl.SynUtils.chem_utils.canon_smiles"
     # O6 first: it needs no structural anchor of normalize_smiles
     rule_o6(ctx)
+    rule_o8(ctx)
+    rule_o9(ctx)
     # the normal form may be built by normalize_smiles itself or by a helper it calls (e.g. a memoised per-side helper)
     family = [f]
     for c in calls(f):
